@@ -129,6 +129,10 @@ class MethodGen:
         r = self.rng
         n = r.randint(1, max(1, budget))
         i = 0
+        if depth > 0:
+            # a body always starts with a real instruction (a body opened by whitespace only is re-nested by the parser)
+            self.emit(depth, f"Mark: m{self.u()}")
+            i = 1
         while i < n and len(self.lines) < self.max_lines:
             i += 1
             can_nest = depth < self.max_depth and len(self.lines) < self.max_lines - 2
